@@ -229,7 +229,7 @@ for (_n, _t) in [("regshort_resize4500", "quick"), ("regshort_resize5100", "thor
     harness("c11_incons_" + _n, props=["C11"], tier=_t, timeout=1800, mem=8, stubs=[FMT, STUB_COPY],
             what="read / write / resize of a REGULAR stream whose length field (5000) claims more than its one-sector chain holds: returns Ok or Err, no overflow / failed assertion / index panic, terminates",
             bounds="5-sector v3 image; offsets and sizes concrete per instance; data symbolic", functions=STOR_F, assumes=[A_SHAPE, A_IOCOPY])
-harness("c11_root_cycle_append", props=["C11"], tier="quick", timeout=1800, mem=8, stubs=[FMT, STUB_COPY], unwind_is_property=True,
+harness("c11_root_cycle_append", props=["C11"], tier="quick", timeout=1800, mem=8, stubs=[FMT, STUB_COPY], unwind_is_property=True, hang_replay_vals=600,
         what="allocate_mini_sector when the mini stream must grow and the root entry's sector chain is a cycle (sector 3 -> 3, which the FAT validator accepts): the cycle is noticed and an error returned; termination = unwinding assertion",
         bounds="5-sector v3 image, MiniFAT of 8 cells, no free mini sector", functions=MINI_F + ["Chain::new", "Allocator::extend_chain"], assumes=[A_SHAPE, A_IOCOPY])
 for (_n, _t) in [("c11_resize_u64max", "quick"), ("c11_resize_u64max_m100", "thorough"), ("c11_resize_u64max_m511", "thorough"), ("c11_write_data_overflow", "quick")]:
